@@ -13,6 +13,7 @@ import (
 	"path/filepath"
 	"regexp"
 	"sort"
+	"strings"
 	"strconv"
 	"testing"
 	"time"
@@ -151,6 +152,145 @@ func (s *state) rawWalk(m *cluster.Member, partID uint64, replica bool, count in
 		"calls": calls, "bound": bound})
 	if st.NumTables >= 2 {
 		s.nontriv++
+	}
+}
+
+// busyScans: iterations whose pages alternate with other work on the DMap - compaction of every fragment, writes of new keys,
+// overwrites and deletes of "victim" keys.  The keys that are present and untouched all the time must be yielded (the
+// statement: "every key that was present during the whole iteration"), nothing may be yielded that was never stored.
+func (s *state) busyScans(rng *rand.Rand, label string, put, del func(k string)) {
+	c := s.c
+	ctx := context.Background()
+	var stable, victims []string
+	for k := range s.present {
+		if rng.Intn(4) == 0 {
+			victims = append(victims, k)
+		} else {
+			stable = append(stable, k)
+		}
+	}
+	sort.Strings(stable)
+	sort.Strings(victims)
+	may := map[string]bool{}
+	for k := range s.present {
+		may[k] = true
+	}
+	fresh := 0
+	work := func() {
+		switch rng.Intn(4) {
+		case 0:
+			for _, m := range c.Live() {
+				for p := uint64(0); p < c.Opts.Partitions; p++ {
+					m.V.DMap.VerifCompact(s.dm, p, partitions.PRIMARY)
+					m.V.DMap.VerifCompact(s.dm, p, partitions.BACKUP)
+				}
+			}
+		case 1:
+			fresh++
+			k := fmt.Sprintf("busy-%s-%d", strings.ReplaceAll(label, " ", "_"), fresh)
+			may[k] = true
+			put(k)
+		case 2:
+			if len(victims) > 0 {
+				put(victims[rng.Intn(len(victims))]) // overwrite: the entry moves to the newest table
+			}
+		default:
+			if len(victims) > 0 {
+				del(victims[rng.Intn(len(victims))])
+			}
+		}
+	}
+	mayList := func() []string {
+		out := []string{}
+		for k := range may {
+			out = append(out, k)
+		}
+		sort.Strings(out)
+		return out
+	}
+	emb := c.Live()[rng.Intn(len(c.Live()))]
+	edm, err := emb.DB.NewEmbeddedClient().NewDMap(s.dm)
+	if err != nil {
+		panic(err)
+	}
+	cc, err := olric.NewClusterClient([]string{c.Live()[0].Name})
+	if err != nil {
+		panic(err)
+	}
+	defer cc.Close(ctx)
+	cdm, err := cc.NewDMap(s.dm)
+	if err != nil {
+		panic(err)
+	}
+	for _, via := range []struct {
+		name string
+		dm   olric.DMap
+	}{{"embedded@" + strconv.Itoa(emb.Index), edm}, {"cluster-client", cdm}} {
+		for _, cnt := range []int{1, 3, 10} {
+			it, err := via.dm.Scan(ctx, olric.Count(cnt))
+			if err != nil {
+				continue
+			}
+			got, fin := []string{}, false
+			for n := 0; n < 20*len(may)+2000; n++ {
+				if !it.Next() {
+					fin = true
+					break
+				}
+				got = append(got, it.Key())
+				if n%cnt == cnt-1 && rng.Intn(3) == 0 {
+					work()
+				}
+			}
+			it.Close()
+			s.evals++
+			s.w.Emit(trace.Ev{"t": "busyscan", "via": via.name + " " + label, "count": cnt, "stable": stable, "may": mayList(), "got": got, "fin": fin})
+			s.nontriv++
+		}
+	}
+	// raw cursor walks of the primary fragments, work between the pages
+	rc := map[int]*redis.Client{}
+	for _, m := range c.Live() {
+		rc[m.Index] = redis.NewClient(&redis.Options{Addr: m.Name, MaxRetries: -1})
+		defer rc[m.Index].Close()
+	}
+	for p := uint64(0); p < c.Opts.Partitions; p++ {
+		for _, m := range c.Live() {
+			if !m.V.DMap.VerifHasFragment(s.dm, p, partitions.PRIMARY) {
+				continue
+			}
+			// the keys of this fragment that stay: stable keys it holds now
+			held := s.fragmentKeys(m, p, partitions.PRIMARY)
+			st := []string{}
+			for _, k := range stable {
+				if held[k] {
+					st = append(st, k)
+				}
+			}
+			cnt := []int{1, 2, 3, 10}[rng.Intn(4)]
+			got, cursor, fin := []string{}, "0", false
+			for calls := 0; calls < 20*len(may)+2000; calls++ {
+				res, err := rc[m.Index].Do(ctx, "dm.scan", p, s.dm, cursor, "COUNT", cnt).Slice()
+				if err != nil || len(res) != 2 {
+					break
+				}
+				cursor = fmt.Sprint(res[0])
+				if ks, ok := res[1].([]any); ok {
+					for _, k := range ks {
+						got = append(got, fmt.Sprint(k))
+					}
+				}
+				if cursor == "0" {
+					fin = true
+					break
+				}
+				if rng.Intn(2) == 0 {
+					work()
+				}
+			}
+			s.evals++
+			s.w.Emit(trace.Ev{"t": "busyscan", "via": fmt.Sprintf("raw part=%d member=%d %s", p, m.Index, label), "count": cnt, "stable": st, "may": mayList(), "got": got, "fin": fin})
+		}
 	}
 }
 
@@ -300,6 +440,8 @@ func TestScan(t *testing.T) {
 					}
 				}
 				s.allScans(rng, "after more churn")
+				s.busyScans(rng, "busy", put, del)
+				s.allScans(rng, "after the busy iterations")
 			}
 			if cf.Fragmented {
 				// a member joins; the routing table is pushed but no fragment has moved yet: partitions with
